@@ -356,6 +356,7 @@ func TestC02(t *testing.T) {
 		Level: "exploration",
 		Rule: "rapid draws a dataset (0-8 people; two thirds with <=3 distinct values per sort key so ties are frequent; a quarter with a constant field) and 3-8 queries = optional predicate (depth<=2) x 0-5 sort keys (any sortable type, either direction, case variants) x skip (absent, 0, negative, 1..n+2) x limit (absent, none, -1, 0, 1..n+2). " +
 			"The id list and count from QueryIds, QueryIdsC, QueryWithCursorC (tree-set and bucket cursor providers) and IterateIds (default order) must equal the reference sort/page; sorting by a constant key must equal the default order. " +
+			"Also generated: queries routed through a plain and an extended child store over mixed populations, tree-set and union-of-tree-sets cursor providers in both directions, a second execution of every compiled query, limits below -1. " +
 			"Non-trivial case: some query's paging cuts the result, or combines an absent/negative bound with a sort, or has >= 2 sort keys. Distinct by hash of the case JSON; sub_evaluations counts queries.",
 		Assumptions: []string{
 			"at most 5 sort keys (boltz.SortMax; more are silently truncated, outside the stated domain)",
